@@ -2,7 +2,7 @@
 import ast
 import re
 
-from ..astutil import format_template, catches_everything, dotted, effective, handler_names, method_call
+from ..astutil import format_template, table_lookup, catches_everything, dotted, effective, handler_names, method_call
 from ..cfg import canon_test, cfg_of, fact_key, norm, walk_own
 from ..consteval import Scope, fold, fold_in
 from ..mutate import B, M
@@ -207,17 +207,23 @@ def check(ctx):
     ctx.need(len(ad) == 2, 'parse_uri: address default/override not found')
     ctx.inst('R2', pu, 'default-address', norm(ad[0].ast.value) == 'DEFAULT_ADDR_A' and fold_in(pu, ad[0].ast.value) == [0xe7] * 5 and
              fold(ast.Name(id='DEFAULT_ADDR', ctx=ast.Load()), sc) == 0xE7E7E7E7E7, 'default address = E7E7E7E7E7 in both constants')
-    st = {norm(n.ast.targets[0]): n.ast.value for n in g.nodes if n.kind == 'stmt' and isinstance(n.ast, ast.Assign)}
-    pad = st.get('addr')
-    ctx.inst('R2', pu, 'address-padding', pad is not None and norm(pad) == "'{:0>10}'.format(parsed_path[2])", 'short addresses are zero padded on the left to 10 hex digits; found %s' % (norm(pad) if pad is not None else None))
-    na = st.get('new_addr')
-    ctx.inst('R2', pu, 'address-bytes', na is not None and norm(na) == "struct.unpack('<BBBBB', binascii.unhexlify(addr))" and norm(ad[1].ast.value) == 'new_addr' and
+    KEEP = ('parsed_uri', 'parsed_path', 'parsed_query')          # the parsed URI parts the rules are written in
+    # the override, with the locals that carry the intermediate strings read back:  unpack('<BBBBB', unhexlify(<padded field>))
+    ov = g.expand_locals(ad[1], ad[1].ast.value, pure_only=False, keep=KEEP)
+    inner = ov.args[1].args[0] if isinstance(ov, ast.Call) and dotted(ov.func) == 'struct.unpack' and len(ov.args) == 2 and isinstance(ov.args[1], ast.Call) and \
+        dotted(ov.args[1].func) == 'binascii.unhexlify' and len(ov.args[1].args) == 1 else None
+    pads = ("'{:0>10}'.format(parsed_path[2])", "parsed_path[2].rjust(10, '0')", 'parsed_path[2].zfill(10)', "'%s' % parsed_path[2].rjust(10, '0')")
+    ft = format_template(inner) if inner is not None else None
+    ctx.inst('R2', pu, 'address-padding', inner is not None and (norm(inner) in pads or (ft is not None and ft == ('{:0>10}', ['parsed_path[2]']))),
+             'short addresses are zero padded on the left to 10 hex digits; found %s' % (norm(inner) if inner is not None else norm(ov)))
+    ctx.inst('R2', pu, 'address-bytes', inner is not None and fold_in(pu, ov.args[0]) == '<BBBBB' and
              fact_key('len(parsed_path) > 2', True) in g.fact_keys_at(ad[1]), 'address = the five bytes in typed order')
     rl = assigns('rate_limit')
     ctx.inst('R2', pu, 'rate-limit', len(rl) == 2 and norm(rl[0].ast.value) == 'None' and norm(rl[1].ast.value) == "int(parsed_query['rate_limit'][0])" and
              fact_key("'rate_limit' in parsed_query", True) in g.fact_keys_at(rl[1]), 'rate limit from the query string, default None')
-    dv = sorted(assigns('devid'), key=lambda n: norm(n.ast.value) != 'int(parsed_uri.netloc)')       # the index branch first, whatever the source order
-    ok = len(dv) == 2 and norm(dv[0].ast.value) == 'int(parsed_uri.netloc)' and norm(dv[1].ast.value) == 'crazyradio.get_serials().index(parsed_uri.netloc.upper())'
+    dvx = {n.id: norm(g.expand_locals(n, n.ast.value, pure_only=False, keep=KEEP)) for n in assigns('devid')}
+    dv = sorted(assigns('devid'), key=lambda n: dvx[n.id] != 'int(parsed_uri.netloc)')       # the index branch first, whatever the source order
+    ok = len(dv) == 2 and dvx[dv[0].id] == 'int(parsed_uri.netloc)' and dvx[dv[1].id] == 'crazyradio.get_serials().index(parsed_uri.netloc.upper())'
     ctx.inst('R2', pu, 'dongle-id', ok and fact_key('parsed_uri.netloc.isdigit()', True) in g.fact_keys_at(dv[0]), 'numeric dongle ids are used directly, serial numbers are looked up')
     ks = g.fact_keys_at(dv[0]) if dv else set()
     okl = any(fact_key(t) in ks for t in ('len(parsed_uri.netloc) < 10', 'len(parsed_uri.netloc) <= 9', '10 > len(parsed_uri.netloc)', '9 >= len(parsed_uri.netloc)'))
@@ -246,6 +252,19 @@ def check(ctx):
                 if norm(n.ast.targets[0]) == 'dr_string' and "f['datarate']" in f.text:
                     other = f.left if "f['datarate']" in norm(f.right) else f.right
                     back[fold_in(ss, n.ast.value)] = norm(other).split('.')[-1]
+    # ... or the same two tables as module-level constants, looked up with the field (default: 2M / '')
+    mod_rd = m.mod(RD)
+    for x in walk_own(ss.node):
+        tl = table_lookup(mod_rd, x) if isinstance(x, (ast.Call, ast.Subscript)) else None
+        if tl is None:
+            continue
+        tbl_, key_, dflt_ = tl
+        xn = gs.node_of(x)
+        key_txt = norm(gs.expand_locals(xn, key_)) if xn is not None else norm(key_)
+        if key_txt == 'uri_data.group(6)' and not fwd and dflt_ is not None and norm(dflt_).split('.')[-1] == 'DR_2MPS':
+            fwd = {k.value: norm(v).split('.')[-1] for k, v in tbl_ if isinstance(k, ast.Constant)}
+        if key_txt == "f['datarate']" and not back and dflt_ is not None and isinstance(dflt_, ast.Constant) and dflt_.value == '':
+            back = {v.value: norm(k).split('.')[-1] for k, v in tbl_ if isinstance(v, ast.Constant)}
     ctx.inst('R4', ss, 'scan_selected-uri-to-rate', fwd == RATES, 'scan_selected URI->rate table %s' % fwd)
     ctx.inst('R4', ss, 'scan_selected-rate-to-uri', back == RATES, 'scan_selected rate->URI table %s' % back)
     rx = [c for c in walk_own(ss.node) if isinstance(c, ast.Call) and dotted(c.func) == 're.search']
@@ -352,7 +371,7 @@ def check(ctx):
     rest = effective(lp[0].body[lp[0].body.index(tr[0]) + 1:])
     ok = len(hs) == 1 and handler_names(hs[0]) == ['WrongUriType'] and [norm(s) for s in effective(hs[0].body)] in (['continue'], []) and not rest and not tr[0].finalbody
     ctx.inst('R5', gl, 'continue-only-on-wrong-scheme', ok, 'only WrongUriType moves on to the next driver; handlers %s' % [handler_names(h) for h in hs])
-    after = [norm(s) for s in gl.node.body[gl.node.body.index(lp[0]) + 1:]]
+    after = [norm(s) for s in effective(gl.node.body[gl.node.body.index(lp[0]) + 1:])]
     ctx.inst('R5', gl, 'none-when-unclaimed', after == ['return None'], 'no driver found -> None')
     ol = m.func(CF, 'Crazyflie.open_link')
     g = cfg_of(ol)
